@@ -199,7 +199,7 @@ static bool UMWalk(const UMessage * msg, int depth, long & budget)
             { double v; g_sink += (unsigned)UMFindDouble(msg, fn, 0, &v); } { UPoint v; g_sink += (unsigned)UMFindPoint(msg, fn, 0, &v); } { URect v; g_sink += (unsigned)UMFindRect(msg, fn, 0, &v); }
             uint32 idxs[5] = {0, 1, 2, n ? n - 1 : 0, n};   // first items, last item, one past the end (must fail)
             for (int q = 0; q < 5; q++) {
-               const uint32 idx = idxs[q];
+               const uint32 idx = idxs[q]; bool dup = false; for (int z = 0; z < q; z++) if (idxs[z] == idx) dup = true; if (dup) continue;
                switch (tc) {
                case B_BOOL_TYPE: { UBoolArrayHandle h = UMGetBools(msg, fn); if (idx < UMGetNumItemsInArray(h)) g_sink += (unsigned)UMGetBoolFromArray(h, idx); } break;
                case B_INT8_TYPE: { Int8ArrayHandle h = UMGetInt8s(msg, fn); if (idx < UMGetNumItemsInArray(h)) g_sink += (unsigned)UMGetInt8FromArray(h, idx); } break;
@@ -222,32 +222,37 @@ static bool UMWalk(const UMessage * msg, int depth, long & budget)
    return true;
 }
 static bool g_contain = true;   // false in --replay: the case then dies with the full sanitizer report
-// runs the walk with read containment; returns false if it did not complete; records the violation
+// runs the walk; with containment a faulting READ is unwound and recorded as a violation; returns false if the walk did not complete
 static bool ContainedWalk(const UMessage * um, mutx::Case & c, const char * what)
 {
    volatile bool completed = false; volatile bool endless = false;
    {
       c02::FaultScope fs(g_contain);
-      if (sigsetjmp(c02::g_faultJmp, 1) == 0) { long budget = 200000; if (!UMWalk(um, 0, budget)) endless = true; completed = true; }
+      if (sigsetjmp(c02::g_faultJmp, 1) == 0) { long budget = 1000 + 4L * (long)UMGetFlattenedSize(um); if (!UMWalk(um, 0, budget)) endless = true; completed = true; }
    }
-   if (c02::g_faultCaught == 2) { c02::Phase("contained-write-fault"); abort(); }   // a write through the read API: never contained
-   if (c02::g_faultCaught == 1) c.Fail(std::string("contained:segv:read:") + what, "SIGSEGV/SIGBUS on a READ access at a wild address inside the micro-Message read API (the accessor follows a length/count word out of the supplied buffer)");
-   else if (c02::g_containedAsanReads > 0) c.Fail(std::string("contained:asan:") + c02::g_containedKind + ":read:" + what, std::string("read outside the supplied buffer inside the micro-Message read API: ") + c02::g_containedFirst + verif::Fmt(" (%d report(s) in this case)", (int)c02::g_containedAsanReads));
-   else if (endless) c.Fail(std::string("walk:field-iteration-does-not-end:") + what, "field iteration over a buffer of this size exceeded 200000 steps");
-   if ((c02::g_faultCaught || c02::g_containedAsanReads) && g_contain) { if (ftruncate(2, 0) == 0) (void)lseek(2, 0, SEEK_SET); }   // drop the contained report(s) from the worker's stderr file so that a later death is not attributed to them
+   if (c02::g_faultCaught == 2) { c02::Phase("write-fault-in-read-API"); abort(); }   // a write through the read API: never contained
+   if (c02::g_faultCaught == 1) c.Fail(std::string("contained:segv:read-past-end-of-buffer:") + what, "READ access past the last supplied byte inside the micro-Message read API (an accessor follows a length/count word out of the buffer; input placed directly before inaccessible memory)");
+   else if (endless) c.Fail(std::string("walk:field-iteration-does-not-end:") + what, "field iteration exceeded 1000 + 4*N steps (a valid N-byte buffer has at most N/12 fields)");
    return completed && !endless;
 }
 static void RunMicroRead(const PartDef &, const Seed & seed, const std::string & in, const std::vector<uint32> &, int, bool dev0, mutx::Case & c)
 {
+   static c02::GuardArena arena;
+   // stage 1: input directly before 4 GiB of inaccessible address space (forward over-reads fault; contained unless replaying)
+   bool stage1Clean = true;
+   { UMessage um; memset(&um, 0, sizeof(um)); uint8 * gp = arena.Place(in.data(), in.size());
+     if (gp) { Phase("parse(guard-page)"); if (UMInitializeWithExistingData(&um, gp, (uint32)in.size()) == CB_NO_ERROR) { Phase("field-walk(guard-page)"); if (!ContainedWalk(&um, c, "field-walk")) stage1Clean = false; } } }
+   if (!stage1Clean || c.failed) { c.Outcome("ok"); Phase("idle"); return; }
+   // stage 2: the same input in an exact-size sanitizer-tracked heap block (catches what a guard page cannot: reads before the start, small strays); any report is fatal
    ExactBuf eb(in); UMessage um; memset(&um, 0, sizeof(um));
    Phase("parse"); c_status_t st; { Metered mt; st = UMInitializeWithExistingData(&um, eb.p, eb.n); }
    CheckAlloc(c, in.size());
    if (st == CB_NO_ERROR) {
-      c.Outcome("ok"); Phase("field-walk");
-      { Metered mt; (void)ContainedWalk(&um, c, "field-walk"); }
+      c.Outcome("ok"); Phase("field-walk"); long budget = 1000 + 4L * (long)in.size();
+      { Metered mt; if (!UMWalk(&um, 0, budget)) c.Fail("walk:field-iteration-does-not-end:field-walk", "field iteration exceeded 1000 + 4*N steps (a valid N-byte buffer has at most N/12 fields)"); }
       CheckAlloc(c, in.size());
    } else { c.Outcome("err"); if (dev0) c.Fail("seed:rejected", "valid seed rejected by UMInitializeWithExistingData"); }
-   if (!dev0) { Phase("reuse"); ExactBuf sb(seed.bytes); mutx::Case c2; if (UMInitializeWithExistingData(&um, sb.p, sb.n) != CB_NO_ERROR || !ContainedWalk(&um, c2, "reuse") || c2.failed) c.Fail("reuse:valid-seed-rejected", "UMessage object re-initialised with a valid encoding fails: " + c2.msg); }
+   if (!dev0) { Phase("reuse"); ExactBuf sb(seed.bytes); long budget = 1000 + 4L * (long)seed.bytes.size(); if (UMInitializeWithExistingData(&um, sb.p, sb.n) != CB_NO_ERROR || !UMWalk(&um, 0, budget)) c.Fail("reuse:valid-seed-rejected", "UMessage object re-initialised with a valid encoding fails"); }
    Phase("idle");
 }
 
@@ -489,7 +494,7 @@ static void BuildParts(bool thorough, verif::Result & res)
    { PartDef p; p.name = "mmsg_unflatten"; p.entry = "MMUnflattenMessage (C mini-Message)"; for (size_t i = 0; i < msgs.size(); i++) p.seeds.push_back(MsgSeed(msgs[i])); p.nest = p.shorts = true; p.pairSeeds = thorough ? p.seeds.size() : pairQ; p.run = RunMiniUnflatten; g_parts.push_back(p); }
    // ---- micro-Message read API
    { PartDef p; p.name = "umsg_read"; p.entry = "UMInitializeWithExistingData + iterator walk + every UMFind*/UMGet* accessor (C micro-Message read API)";
-     for (size_t i = 0; i < msgs.size(); i++) if (thorough || (i % 2) == 0 || i >= 26) p.seeds.push_back(MsgSeed(msgs[i]));
+     for (size_t i = 0; i < msgs.size(); i++) p.seeds.push_back(MsgSeed(msgs[i]));
      p.nest = p.shorts = true; p.run = RunMicroRead; g_parts.push_back(p); }
    // ---- ZLibCodec::Inflate
    { PartDef p; p.name = "zlib_inflate"; p.entry = "ZLibCodec::Inflate"; const char * pick[] = {"mix3", "big", "stringx3", "emptystr", "nest2"};
@@ -591,7 +596,7 @@ int main(int argc, char ** argv)
    if (getenv("C02_ASAN_OPTS_SET") == NULL) {
       // enumeration runs unsymbolized (llvm-symbolizer costs ~0.2 s per dying case); --replay keeps the symbolized report
       bool isReplayRun = false; for (int i = 1; i < argc; i++) if (strcmp(argv[i], "--replay") == 0) isReplayRun = true;
-      const char * old = getenv("ASAN_OPTIONS"); std::string o = (old && *old) ? (std::string(old) + ":") : std::string(); o += "max_allocation_size_mb=256:halt_on_error=0:suppress_equal_pcs=0"; if (!isReplayRun) o += ":symbolize=0";
+      const char * old = getenv("ASAN_OPTIONS"); std::string o = (old && *old) ? (std::string(old) + ":") : std::string(); o += "max_allocation_size_mb=256"; if (!isReplayRun) o += ":symbolize=0";
       setenv("ASAN_OPTIONS", o.c_str(), 1);
       if (!isReplayRun) { const char * ou = getenv("UBSAN_OPTIONS"); std::string u = (ou && *ou) ? (std::string(ou) + ":") : std::string(); u += "symbolize=0"; setenv("UBSAN_OPTIONS", u.c_str(), 1); } setenv("C02_ASAN_OPTS_SET", "1", 1); execv("/proc/self/exe", argv); perror("execv"); return 3;
    }
